@@ -203,6 +203,13 @@ def run(model, rep, tier):
         rep.ob('fully-referenced-output', oc, ret, 'preene2betafree returns %s with residual class %s' % (unparse(e), _fmt(c)), ok,
                '' if ok else '%s is not shifted by exactly the minima of the species it is referred to: results depend on '
                              'the zero of energy' % unparse(e), engine='balance', qual='VacancyMediated.preene2betafree')
+    limb_classes(model, rep, oc, ci)
+    _solver(model, rep)
+
+
+
+def limb_classes(model, rep, oc, ci):
+    """reference classes of the back-filled (LIMB) transition-state energies (shared with C07)."""
     # ---- LIMB
     fn = ci.methods.get('makeLIMBpreene')
     w = Walker(VM_PARAMS['makeLIMBpreene'], 2)
@@ -242,8 +249,6 @@ def run(model, rep, tier):
         rep.ob('fully-referenced-output', oc, st, 'makeLIMBpreene: %s has class %s (documented %s)' % (unparse(st)[:80], _fmt(c), _fmt(want)),
                c == want, '' if c == want else 'back-filled transition state is not referred to vacancy + solute as documented',
                engine='balance', qual='VacancyMediated.makeLIMBpreene')
-    _solver(model, rep)
-
 
 def _fmt(c):
     return 'unknown' if c is None else '(' + ','.join(str(x) for x in c) + ')'
